@@ -106,11 +106,17 @@ class ListEnv(ScriptEnv):
         return cls, reply_bytes(cls, self.k)
 
 
+P2_STAR_MS = 5000
+
+
 def limits(timeout_s: float) -> dict[str, int]:
     ms = int(round(timeout_s * 1000))
     # silence after a pending: a reply within the EFFECTIVE request timeout is "received in time" (the statement:
     # "silence limit (currently max(timeout, 20 s))"), so the whole caller timeout must be tolerated
-    return {"pendTol": 10, "pendEnd": 1000, "silTol": ms, "silEnd": 10 * max(ms, 20000)}
+    # ... and at least P2*_server (ISO 14229-2 default 5000 ms): after a responsePending the ECU may take that long for
+    # its next message, whatever the tester's own timeout is (the code: max(timeout, 20 s)); a final reply inside that
+    # window is "received in time"
+    return {"pendTol": 10, "pendEnd": 1000, "silTol": max(ms, P2_STAR_MS), "silEnd": 10 * max(ms, 20000)}
 
 
 def execute(env: ScriptEnv, *, client_retry: int, override_retry: int | None,
@@ -374,6 +380,16 @@ def run(tier: str, seed: int) -> Report:
     for script, R, ot in long_scripts():
         add(execute(ListEnv(script), client_retry=R, override_retry=None, client_timeout=2.0,
                     override_timeout=ot), "long")
+    # clients with a short timeout (0.1 / 0.2 / 0.3 s, client-level and per request): the wait after a responsePending
+    # is governed by P2*_server, not by the tester's own timeout - a final reply 2..4.9 s after the pending is in time
+    for ct, ot in ((0.1, None), (0.2, None), (2.0, 0.1), (0.3, None), (0.1, 0.25)):
+        eff = ot if ot is not None else ct
+        for silent_s in (0.35, 2.0, 4.2, 4.9):
+            n = int(silent_s / min(eff, 0.5) + 0.5)
+            for tail in (["PosFinal"], ["Pending", "NegFinal"]):
+                for R in (0, 1):
+                    add(execute(ListEnv(["Pending"] + ["Timeout"] * n + tail), client_retry=R, override_retry=None,
+                                client_timeout=ct, override_timeout=ot), "short-timeout-pending")
     for script, R in limit_structured_scripts(tier):
         add(execute(ListEnv(script), client_retry=R, override_retry=None, client_timeout=2.0,
                     override_timeout=None), "limit-structured")
